@@ -713,6 +713,6 @@ func init() {
 	generators["C02"] = genC02
 	generators["C03"] = genC03
 	generators["C04"] = genC04
-	generators["C05"] = genC05
+	generators["C05"] = func(g *gen) { genC05(g); genC05mult(g) }
 	generators["C13"] = genC13
 }
